@@ -97,11 +97,16 @@ let opt_inst = function A "-" -> None | x -> Some (inst x)
 
 let tables_of = function
   | L [A "ext"; L (A "henc" :: a); L (A "hdec" :: b); L (A "quote" :: c); L (A "unquote" :: d);
-       L (A "tfmt" :: e); L (A "tparse" :: f); L (A "text" :: g); L (A "mime" :: h)] ->
+       L (A "tfmt" :: e); L (A "tparse" :: f); L (A "text" :: g); L (A "mime" :: h); L (A "hi" :: _)] ->
     { tb_href_enc = List.map (pair str str) a; tb_href_dec = List.map (pair str opt_str) b;
       tb_quote = List.map (pair str str) c; tb_unquote = List.map (pair str opt_str) d;
       tb_time_fmt = List.map (pair inst str) e; tb_time_parse = List.map (pair str opt_inst) f;
       tb_text = List.map (pair str str) g; tb_mime = List.map (pair str str) h }
+  | _ -> raise (Parse_error "ext")
+
+let hi_of = function
+  | L (A "ext" :: rest) ->
+    (match List.rev rest with L (A "hi" :: l) :: _ -> List.map (fun x -> n_of_int (int_ x)) l | _ -> raise (Parse_error "hi"))
   | _ -> raise (Parse_error "ext")
 
 let rec node_of (x : t) : node option =
@@ -151,7 +156,11 @@ let () =
       bump ("op_" ^ op_name o);
       bump (if is_local then "backend_local" else "backend_mem");
       bump ("transport_" ^ tr);
-      let x = ext_of_tables (tables_of ext) in
+      let tabs = tables_of ext in
+      let x = ext_of_tables tabs in
+      (* the tables were computed by the real Go codecs: C16's models must give the same *)
+      let codecs_agree = codec_tables_agree (hi_of ext) tabs in
+      if not codecs_agree then bump "codec_model_differs";
       let script = List.map answer_of answers in
       List.iter (fun a ->
         let infos = (match a with AStat (_, FOk i) -> [i] | AReadDir (_, _, FOk l) -> l | _ -> []) in
@@ -166,7 +175,7 @@ let () =
          if calls <> [] then note_nontrivial (show (List.hd sx));
          let st = (match stored with A "-" -> None | b -> Some (bytes_ b)) in
          if st <> None then bump "create_read_back";
-         let agree = model_agrees x fs ep o calls out in
+         let agree = model_agrees x fs ep o calls out && codecs_agree in
          let spec = spec_ok x fs ep o calls out && stored_ok o st in
          (* the local backend: its answers are those of the tree model, and a listing of a
             collection has the scope the property demands *)
@@ -183,7 +192,13 @@ let () =
          if agree && spec then None else
          let (mc, mo) = run_op x fs ep o in
          verdict ~agree ~spec ~kf:"-"
-           ~detail:(Printf.sprintf "model: calls=[%s] out=%s" (String.concat "; " (List.map show_call mc)) (show_out mo)))
+           ~detail:(Printf.sprintf "model: calls=[%s] out=%s%s" (String.concat "; " (List.map show_call mc)) (show_out mo)
+                      (if codecs_agree then "" else
+                         let bad name f l = if List.for_all f l then "" else " " ^ name in
+                         " CODEC MODEL (C16) DIFFERS FROM THE GO CODEC in:" ^
+                         bad "href-enc" href_enc_agrees tabs.tb_href_enc ^ bad "href-dec" href_dec_agrees tabs.tb_href_dec ^
+                         bad "quote" (quote_agrees (iph_of_list (hi_of ext))) tabs.tb_quote ^ bad "unquote" unquote_agrees tabs.tb_unquote ^
+                         bad "time-fmt" time_fmt_agrees tabs.tb_time_fmt ^ bad "time-parse" time_parse_agrees tabs.tb_time_parse)))
     | [L (A "in" :: _); L [A "drv"]; L [A "obs"; _; L [A "panic"]]] ->
       bump "obs_panic"; Some "agree=0 spec=0 kf=- :: implementation panicked"
     | _ -> raise (Parse_error "line"))
